@@ -268,6 +268,10 @@ class BaseParser:
                                 global_vars=global_vars,
                                 forward_refs=self.forward_refs,
                                 forward_key=name,
+                                # as at declaration: Self means this class, and nothing evaluated here
+                                # stays in the reference objects typing shares between declarations
+                                bound=self.bound,
+                                force_clear_refs=self.force_clear_refs,
                             )
                         else:
                             # maybe just ref to some const
